@@ -41,13 +41,14 @@ def auto_detect_input(prg: Iterable[AST]) -> list[Predicate]:
     derivable_preds: set[Predicate] = set()
     in_body: dict[Predicate, set[int]] = defaultdict(set)
     in_head: dict[Predicate, set[int]] = defaultdict(set)
-    for index, stm in enumerate(prg):
-        all_preds.update([pred.pred for pred in predicates(stm)])
-        for pred in headderivable_predicates(stm):
-            derivable_preds.add(pred.pred)
-            in_head[pred.pred].add(index)
-        for pred in chain(body_predicates(stm, SIGNS), minimize_predicates(stm, SIGNS)):
-            in_body[pred.pred].add(index)
+    for index, pooled_stm in enumerate(prg):
+        for stm in pooled_stm.unpool():  # a(1;2). and b :- a(X;Y). hide their predicates inside pools
+            all_preds.update([pred.pred for pred in predicates(stm)])
+            for pred in headderivable_predicates(stm):
+                derivable_preds.add(pred.pred)
+                in_head[pred.pred].add(index)
+            for pred in chain(body_predicates(stm, SIGNS), minimize_predicates(stm, SIGNS)):
+                in_body[pred.pred].add(index)
 
     input_ = list(sorted(all_preds - derivable_preds))
     for p in all_preds:
@@ -65,10 +66,12 @@ def auto_detect_output(prg: Iterable[AST]) -> list[Predicate]:
     output: set[Predicate] = set()
     for stm in prg:
         if stm.ast_type == ASTType.ShowSignature:
-            output.add(Predicate(stm.name, stm.arity))
+            if stm.name:  # "#show." names no predicate
+                output.add(Predicate(stm.name, stm.arity))
         elif stm.ast_type == ASTType.ShowTerm:
-            for lit in stm.body:
-                output.update([p.pred for p in predicates(lit)])
+            for unpooled in stm.unpool():
+                for lit in unpooled.body:
+                    output.update([p.pred for p in predicates(lit)])
     if output:
         log.info(
             "Output detected. Consider using a postprocessor to format your output instead of rules and statements."
